@@ -177,7 +177,7 @@ class Result:
         self.d["nontrivial"].append(tag or self.instance)
 
     def herr(self, msg):
-        self.d["harness_errors"].append(f"{self.instance}: {msg}"[:500])
+        self.d["harness_errors"].append(f"{self.instance[:140]}: {str(msg)[-900:]}")
 
     def fn(self, *objs):
         for o in objs:
